@@ -422,6 +422,22 @@ def random_case2(rng: random.Random, n: int):
         else:
             lines.append(f'f{i}=Coefficient(space(m,"{cfam}",{cdg}))')
             cf.append((f"f{i}", "scal", cdg))
+    # coefficient in a mixed space (vector part, scalar part): offsets of sub-elements, on every integral type
+    if rng.random() < 0.3 and itype != "dP":
+        mf = {"P": "DP", "Q": "DQ"}.get(fam, fam) if itype == "dS" else fam
+        lines.append(f'Wm=FunctionSpace(m,basix.ufl.mixed_element([el("{mf}","{cell}",{deg},shape=({gdim},)), el("{mf}","{cell}",1), el("{mf}","{cell}",{deg})]))')
+        lines.append("wm=Coefficient(Wm); (ma,mb,mc)=split(wm)")
+        cf += [("ma", "vec", deg), ("mb", "scal", 1), ("mc", "scal", deg)]
+    # quadrature-element coefficient: fixes the rule of the terms it occurs in (cell integrals of simplices)
+    qe = None
+    if rng.random() < 0.15 and itype == "dx" and cell in ("triangle", "tetrahedron", "interval"):
+        qd = rng.choice([1, 2, 3])
+        lines.append(f'sq=Coefficient(FunctionSpace(m,basix.ufl.quadrature_element("{cell}", (), "default", {qd})))')
+        qe = ("sq", qd)
+    # a global constant (real space)
+    if rng.random() < 0.1 and itype != "dP":
+        lines.append(f'rr=Coefficient(FunctionSpace(m,basix.ufl.real_element("{cell}",())))')
+        cf.append(("rr", "scal", 0))
     consts = []
     if rng.random() < 0.4:
         lines.append("k0=Constant(m)")
@@ -559,12 +575,20 @@ def random_case2(rng: random.Random, n: int):
             body = side(scal_expr(), allow_avg=False)
         r = rng.random()
         md = []
-        if r < 0.25:
+        with_qe = qe is not None and rng.random() < 0.5
+        if with_qe:
+            sf = f"sq*{sf}"
+            if rng.random() < 0.5:
+                md.append(f"degree={qe[1]}")
+        elif r < 0.25:
             md.append(f"degree={rng.choice([0, 1, 2, 3, 5])}")
         elif r < 0.32:
             md.append('scheme="vertex", degree=1')
-        if rng.random() < 0.25:
+        rr_ = rng.random()
+        if rr_ < 0.2:
             md.insert(0, str(rng.choice([1, 2, 5])))
+        elif rr_ < 0.35:
+            md.insert(0, rng.choice(["(1, 2)", "(2, 5)", "(1, 5, 7)"]))      # tuple ids: may overlap other terms' ids
         mds = f"({', '.join(md)})" if md else ""
         if itype == "dP":
             # vertex integrals: no facet quantities, continuous data only
